@@ -8,13 +8,16 @@
                 Prediction of a program the analysis accepts: every caller buffer unchanged after
                 the call, the result is not the caller's object when the run says it is a new one,
                 no attribute of the estimator changed by a regenerated apply-type method,
-                constructor parameters unchanged by apply-type calls.  Programs the analysis
+                constructor parameters unchanged by apply-type calls; a forecaster class whose
+                regenerated cutoff skeleton (C12/Cutoff.v) is guarded: no predict call moved the
+                cutoff.  Programs the analysis
                 rejects make no prediction (C12/Bridge.v proves there is none among the generated).
    CPool      : the observed completion order of EnsembleForecaster's member fits, fed to the pool
                 semantics, must deliver the observed `forecasters_` contents.
    CIntervals : _get_intervals over the recorded generator calls must give the observed array. *)
 From Coq Require Import ZArith List Bool Arith.
-Require Import SkV.C12.Model SkV.C12.Own.
+From Coq Require String.
+Require Import SkV.C12.Model SkV.C12.Own SkV.C12.Cutoff.
 Import ListNotations.
 
 Definition zlist_eqb (a b : list Z) : bool :=
@@ -70,20 +73,25 @@ Definition call_ok (c : call) : bool :=
        end
   else true.
 
+(* predict of a class whose regenerated cutoff skeleton is guarded leaves the cutoff alone *)
+Definition cutoff_guarded (cls : String.string) : bool :=
+  existsb (fun p => String.eqb (fst p) cls && guarded (snd p)) cutoff_progs.
+
 Inductive case :=
-  | CEst (calls : list call) (params_changed : bool)
+  | CEst (calls : list call) (params_changed : bool) (cls : String.string) (cutoff_moved : list bool)
   | CPool (a b : Z) (tasks : list Z) (sched : list nat) (observed : list Z)
   | CIntervals (ni : nat) (mi sl : Z) (draws : list (Z * Z)) (observed : option (list (Z * Z))).
 
 Definition check (c : case) : bool :=
   match c with
-  | CEst calls pc =>
+  | CEst calls pc cls moved =>
       match calls with
       | [] => false
       | _ :: applies =>
           forallb call_ok calls &&
           (if forallb (fun c => accepted (fst (fst c)) && negb (so_of (fst (fst c)))) applies
-           then negb pc else true)
+           then negb pc else true) &&
+          (if cutoff_guarded cls then forallb negb moved else true)
       end
   | CPool a b tasks sched observed =>
       match parallel_map (pure_task (St := unit) (fun t => (a * t + b)%Z)) tasks tt sched with
